@@ -25,6 +25,103 @@ def run(model, rep, tier):
     rep.units['cfg'] = ctx.cfg_stats
 
 
+def _expanded(fi, expr):
+    """*expr* with single-assignment locals of plain expressions substituted"""
+    import copy
+    from .common import local_assignments
+    assigns = local_assignments(fi.node)
+
+    class T(ast.NodeTransformer):
+        def visit_Name(self, n):
+            vals = [v for v in assigns.get(n.id, []) if isinstance(v, ast.AST)]
+            if isinstance(n.ctx, ast.Load) and len(assigns.get(n.id, [])) == 1 and len(vals) == 1 and \
+                    not isinstance(vals[0], (ast.List, ast.ListComp, ast.Dict, ast.Set)) and \
+                    not (isinstance(vals[0], ast.Call) and dotted(vals[0].func) in
+                         ('list', 'deque', 'collections.deque', 'iter')):
+                return T().visit(copy.deepcopy(vals[0]))
+            return n
+    return T().visit(copy.deepcopy(expr))
+
+
+def _running_and_ready(ctx, fi, g, s, tvar):
+    """(list the started thread is appended to, list it was taken from)"""
+    from .common import reaching_defs, node_of
+    running = ready = None
+    for c in own_calls(fi.node):
+        if isinstance(c.func, ast.Attribute) and c.func.attr == 'append' and c.args and \
+                is_name(c.args[0], tvar) and dotted(c.func.value):
+            sn = node_of(g, s)
+            an = node_of(g, c)
+            if sn is not None and an is not None and an in g.reach([sn]):
+                running = dotted(c.func.value)
+    nid = node_of(g, s)
+    if nid is not None and tvar:
+        for d in reaching_defs(g, nid, tvar):
+            if isinstance(d, ast.Call) and isinstance(d.func, ast.Attribute) and \
+                    d.func.attr in ('pop', 'popleft') and dotted(d.func.value):
+                ready = dotted(d.func.value)
+    return running, ready
+
+
+def _start_guard_table(fi, lits, running, ready):
+    """evaluate the conjunction of the guards of the start site over running r in 0..3,
+    N in 1..3, queued q in 0..3; returns (bound violations, empty-queue violations, idle slots) as
+    lists of example valuations, or None when an atom is outside the vocabulary"""
+    class Unknown(Exception):
+        pass
+
+    def ev(e, r, N, q):
+        d = dotted(e)
+        if d == 'options.processes':
+            return N
+        if d == running:
+            return [0] * r
+        if d == ready:
+            return [0] * q
+        if isinstance(e, ast.Constant) and isinstance(e.value, (int, bool)):
+            return e.value
+        if isinstance(e, ast.Call) and dotted(e.func) in ('len', 'min', 'max', 'bool', 'int') and not e.keywords:
+            args = [ev(a, r, N, q) for a in e.args]
+            return {'len': len, 'min': min, 'max': max, 'bool': bool, 'int': int}[dotted(e.func)](*args)
+        if isinstance(e, ast.BinOp) and isinstance(e.op, (ast.Add, ast.Sub)):
+            a, b = ev(e.left, r, N, q), ev(e.right, r, N, q)
+            return a + b if isinstance(e.op, ast.Add) else a - b
+        if isinstance(e, ast.UnaryOp) and isinstance(e.op, ast.Not):
+            return not ev(e.operand, r, N, q)
+        if isinstance(e, ast.BoolOp):
+            vals = [ev(v, r, N, q) for v in e.values]
+            return all(vals) if isinstance(e.op, ast.And) else any(vals)
+        if isinstance(e, ast.Compare) and len(e.ops) == 1:
+            a, b = ev(e.left, r, N, q), ev(e.comparators[0], r, N, q)
+            op = e.ops[0]
+            table = {ast.Lt: a < b, ast.LtE: a <= b, ast.Gt: a > b, ast.GtE: a >= b,
+                     ast.Eq: a == b, ast.NotEq: a != b} if not isinstance(a, list) and not isinstance(b, list) \
+                else {ast.Eq: a == b, ast.NotEq: a != b}
+            if type(op) in table:
+                return table[type(op)]
+        raise Unknown(norm(e))
+    over, empty, idle = [], [], []
+    xl = [(_expanded(fi, e), pos) for e, pos in lits]
+    try:
+        for r in range(4):
+            for N in range(1, 4):
+                for q in range(4):
+                    if r == 0 and q == 0:
+                        continue        # the main loop has ended
+                    val = all(bool(ev(e, r, N, q)) == pos for e, pos in xl)
+                    want = r < N and q > 0
+                    point = 'running=%d, N=%d, queued=%d' % (r, N, q)
+                    if val and r >= N:
+                        over.append(point)
+                    elif val and q == 0:
+                        empty.append(point)
+                    elif want and not val:
+                        idle.append(point)
+    except (Unknown, TypeError, ValueError):
+        return None
+    return over[:1], empty[:1], idle[:1]
+
+
 def r1_bounded_start(ctx, rep, R='C06.R1'):
     rep.rule(R, 'bounded start: the only start() of a subprocess thread happens while '
              'len(running) < options.processes; the started thread is added to running on every '
@@ -43,31 +140,50 @@ def r1_bounded_start(ctx, rep, R='C06.R1'):
     s = starts[0]
     tvar = dotted(s.func.value)
     lits = path_literals(s, fi.node)
-    running = None
-    bound_ok = False
-    for e, pos in lits:
-        if pos and isinstance(e, ast.Compare) and len(e.ops) == 1 and isinstance(e.ops[0], ast.Lt) \
-                and isinstance(e.left, ast.Call) and dotted(e.left.func) == 'len' and \
-                dotted(e.comparators[0]) == 'options.processes':
-            running = dotted(e.left.args[0])
-            bound_ok = True
-        if pos and isinstance(e, ast.Compare) and len(e.ops) == 1 and isinstance(e.ops[0], ast.Gt) \
-                and dotted(e.left) == 'options.processes' and isinstance(e.comparators[0], ast.Call) \
-                and dotted(e.comparators[0].func) == 'len':
-            running = dotted(e.comparators[0].args[0])
-            bound_ok = True
-    rep.check(bound_ok, R, 'start() guarded by len(%s) < options.processes' % running,
-              'thread.start() is not guarded by the process bound (guards: %s)'
-              % [norm(e) for e, p in lits], key='start:bound', func=fi.qualname, where=ctx.where(fi, s))
+    running, ready = _running_and_ready(ctx, fi, g, s, tvar)
+    verdict = _start_guard_table(fi, lits, running, ready) if running and ready else None
+    if verdict is not None:
+        over, empty, idle = verdict
+        rep.check(not over, R, 'start() only while len(%s) < options.processes (all (running, N, queued) '
+                  'in 0..3 x 1..3 x 0..3)' % running,
+                  'thread.start() is reachable with %s: more than N layer subprocesses alive' % over,
+                  key='start:bound', func=fi.qualname, where=ctx.where(fi, s))
+        rep.check(not empty, R, 'start() only while a layer is queued',
+                  'thread.start() is reachable with %s: nothing to start' % empty,
+                  key='start:queued', func=fi.qualname, where=ctx.where(fi, s))
+        rep.check(not idle, R, 'a queued layer is started whenever fewer than N are running',
+                  'with %s no thread is started although a slot is free and a layer is queued: fewer '
+                  'than N layers make progress at the same time' % idle,
+                  key='start:progress', func=fi.qualname, where=ctx.where(fi, s))
+        bound_ok = not over
+    else:
+        running = None
+        bound_ok = False
+        for e, pos in lits:
+            if pos and isinstance(e, ast.Compare) and len(e.ops) == 1 and isinstance(e.ops[0], ast.Lt) \
+                    and isinstance(e.left, ast.Call) and dotted(e.left.func) == 'len' and \
+                    dotted(e.comparators[0]) == 'options.processes':
+                running = dotted(e.left.args[0])
+                bound_ok = True
+            if pos and isinstance(e, ast.Compare) and len(e.ops) == 1 and isinstance(e.ops[0], ast.Gt) \
+                    and dotted(e.left) == 'options.processes' and isinstance(e.comparators[0], ast.Call) \
+                    and dotted(e.comparators[0].func) == 'len':
+                running = dotted(e.comparators[0].args[0])
+                bound_ok = True
+        rep.check(bound_ok, R, 'start() guarded by len(%s) < options.processes' % running,
+                  'thread.start() is not guarded by the process bound (guards: %s)'
+                  % [norm(e) for e, p in lits], key='start:bound', func=fi.qualname, where=ctx.where(fi, s))
     if not bound_ok:
         return
-    # in a while loop whose test carries the bound
+    # in a while loop that re-tests the bound after every start
     wl = None
     node = s
     while getattr(node, '_parent', None) is not None and node._parent is not fi.node:
         node = node._parent
-        if isinstance(node, ast.While) and 'options.processes' in norm(node.test):
-            wl = node
+        if isinstance(node, (ast.For, ast.While)):
+            if isinstance(node, ast.While) and any(
+                    isinstance(x, ast.Name) and x.id == running for x in ast.walk(_expanded(fi, node.test))):
+                wl = node
             break
     rep.check(wl is not None, R, 'the start site is in a while loop over the bound',
               'threads are started at most one per polling round (if instead of while): fewer than N '
